@@ -79,19 +79,6 @@ Proof. intros H. unfold skip_ows. cbn [drop_while]. rewrite (tchar_not_ows b H).
 
 (* ---------- fields as the recipient must be able to read them ---------- *)
 
-Definition tokenb (s : bytes) : bool :=
-  match s with [] => false | _ => forallb is_tchar s end.
-
-Definition field_ok (f : field) : bool :=
-  tokenb (fst f) && bytes_eqb (to_lower (fst f)) (fst f) &&
-  match snd f with
-  | Quoted _ => true
-  | QuotedRaw v => negb (mem_byte dquote v) && negb (mem_byte bslash v)
-  | Bare v => tokenb v
-  end.
-
-Definition sem_field (f : field) : field := (fst f, fval_sem (snd f)).
-
 (* the tail that follows a rendered field inside the list: nothing, or the separator *)
 Definition tail_ok (t : bytes) : Prop := t = [] \/ exists t', t = comma :: t'.
 
